@@ -3,12 +3,9 @@ open Lean
 namespace Hdl21.Drv.C03
 open Hdl21.J
 
-/-- Fuel handed to the resolver. That it suffices is *not* a theorem (the resolver's theorems hold for every fuel: whatever it
-    returns is right); running out would show as a model refusal where the implementation accepts — compared on every run. -/
-def fuelFor (c : SConn) : Nat :=
-  match c.width with
-  | .ok w => (c.size + 2) * (2 * w + 4) + 8
-  | .error _ => c.size * 8 + 8
+/-- Fuel handed to the resolver: exactly `needR c`, which `Props.C03.resolve_total` proves sufficient for everything that has a
+    denotation (were it not, the model would refuse where the implementation accepts — compared on every run). -/
+def fuelFor (c : SConn) : Nat := needR c
 
 def handle (op : String) (j : Json) : Except String Json := do
   match op with
